@@ -11,6 +11,7 @@ import (
 	"math"
 	"os"
 	"path/filepath"
+	"sort"
 	"strings"
 	"testing"
 
@@ -46,10 +47,10 @@ type value struct {
 }
 
 type gen struct {
-	t    *rapid.T
-	seq  int
+	t           *rapid.T
+	seq         int
 	gosrc, csrc strings.Builder
-	nstruct int
+	nstruct     int
 }
 
 func (g *gen) n(lo, hi int, l string) int { return rapid.IntRange(lo, hi).Draw(g.t, l) }
@@ -227,6 +228,8 @@ type unitInfo struct {
 	IntRegs   int
 	SseRegs   int
 	Exhausted bool
+	Strings   bool
+	EmptyStr  bool
 }
 
 // classify counts the integer/SSE registers the arguments before and including the struct need (SysV)
@@ -438,6 +441,118 @@ func (g *gen) unit(u int) unitInfo {
 	return info
 }
 
+// stringUnit: Go strings and byte slices cross to C as C strings / buffers and come back.
+func (g *gen) stringUnit(u int) unitInfo {
+	info := unitInfo{Expect: map[string]uint64{}, Strings: true}
+	ns := g.n(1, 5, "nstrings")
+	var tab []byte
+	var bounds [][2]int
+	var strs [][]byte
+	for i := 0; i < ns; i++ {
+		var b []byte
+		switch g.n(0, 5, "strshape") {
+		case 0: // empty
+		case 1: // contains a NUL: C sees it cut there
+			b = []byte{byte(g.n(1, 255, "b")), 0, byte(g.n(1, 255, "b"))}
+		default:
+			for k, n := 0, g.n(1, 24, "strlen"); k < n; k++ {
+				b = append(b, byte(g.n(1, 255, "b")))
+			}
+		}
+		bounds = append(bounds, [2]int{len(tab), len(tab) + len(b)})
+		tab = append(tab, b...)
+		strs = append(strs, b)
+	}
+	tab = append(tab, 1) // never empty
+	cut := func(b []byte) []byte {
+		for i, c := range b {
+			if c == 0 {
+				return b[:i]
+			}
+		}
+		return b
+	}
+	hashStrs := func() uint64 {
+		h := fnvInit
+		for _, b := range strs {
+			c := cut(b)
+			h = mix(h, uint64(len(c)))
+			for _, x := range c {
+				h = mix(h, uint64(x))
+			}
+		}
+		return h
+	}
+	info.Expect["cstr"], info.Expect["cstrheap"], info.Expect["back"], info.Expect["argv"] = hashStrs(), hashStrs(), hashStrs(), hashStrs()
+	bh := fnvInit
+	for _, x := range tab {
+		bh = mix(bh, uint64(x))
+	}
+	info.Expect["buf"] = bh
+	nfill, seed := g.n(1, 40, "nfill"), g.n(0, 100, "fillseed")
+	fh := fnvInit
+	for i := 0; i < nfill; i++ {
+		fh = mix(fh, uint64(byte(seed*7+i*13)))
+	}
+	info.Expect["fill"] = fh
+	var lits, sl []string
+	for _, x := range tab {
+		lits = append(lits, fmt.Sprint(x))
+	}
+	for _, b := range bounds {
+		sl = append(sl, fmt.Sprintf("string(tab%d[%d:%d])", u, b[0], b[1]))
+	}
+	fmt.Fprintf(&g.gosrc, `var tab%[1]d = []byte{%[2]s}
+
+func U%[1]d() {
+	strs := []string{%[3]s}
+	h := uint64(%[4]d)
+	for _, s := range strs {
+		sink += scribble(int32(len(s)))
+		h = csHash(h, allocaCStr(s))
+	}
+	println("#%[1]d", "cstr", h)
+	h = uint64(%[4]d)
+	for _, s := range strs {
+		h = csHash(h, allocCStr(s))
+	}
+	println("#%[1]d", "cstrheap", h)
+	h = uint64(%[4]d)
+	for _, s := range strs {
+		sink += scribble(int32(len(s)) + 1)
+		back := goString(csKeep(allocaCStr(s)))
+		h = mix(h, uint64(len(back)))
+		for i := 0; i < len(back); i++ {
+			h = mix(h, uint64(back[i]))
+		}
+	}
+	println("#%[1]d", "back", h)
+	sink += scribble(3)
+	println("#%[1]d", "argv", csArgv(allocaCStrs(strs, true)))
+	println("#%[1]d", "buf", bufHash(&tab%[1]d[0], int32(len(tab%[1]d))))
+	fill := make([]byte, %[5]d)
+	bufFill(&fill[0], %[5]d, %[6]d)
+	h = uint64(%[4]d)
+	for _, x := range fill {
+		h = mix(h, uint64(x))
+	}
+	println("#%[1]d", "fill", h)
+}
+
+`, u, strings.Join(lits, ", "), strings.Join(sl, ", "), fnvInit, nfill, seed)
+	empty, nul := 0, 0
+	for _, b := range strs {
+		if len(b) == 0 {
+			empty++
+		} else if len(cut(b)) != len(b) {
+			nul++
+		}
+	}
+	info.Desc = fmt.Sprintf("strings unit: %d Go strings (%d empty, %d with an embedded NUL) to C strings and back, argv vector, %d-byte buffer to C, %d bytes filled by C", ns, empty, nul, len(tab), nfill)
+	info.EmptyStr = empty > 0
+	return info
+}
+
 func paramIndex(i, structPos, npre int) int {
 	if i < structPos {
 		return i
@@ -500,6 +615,40 @@ func mix(h, v uint64) uint64 {
 func f32bits(f float32) uint32 { return *(*uint32)(unsafe.Pointer(&f)) }
 func f64bits(f float64) uint64 { return *(*uint64)(unsafe.Pointer(&f)) }
 
+// Go string / byte slice <-> C string / buffer (llgo's conversion intrinsics)
+
+//go:linkname allocaCStr llgo.allocaCStr
+func allocaCStr(s string) *int8
+
+//go:linkname allocCStr llgo.allocCStr
+func allocCStr(s string) *int8
+
+//go:linkname allocaCStrs llgo.allocaCStrs
+func allocaCStrs(strs []string, endWithNil bool) **int8
+
+//go:linkname goString llgo.string
+func goString(cstr *int8, __llgo_va_list ...any) string
+
+//go:linkname scribble C.scribble
+func scribble(seed int32) int32
+
+//go:linkname csHash C.cs_hash
+func csHash(h uint64, s *int8) uint64
+
+//go:linkname csKeep C.cs_keep
+func csKeep(s *int8) *int8
+
+//go:linkname csArgv C.cs_argv
+func csArgv(v **int8) uint64
+
+//go:linkname bufHash C.buf_hash
+func bufHash(p *byte, n int32) uint64
+
+//go:linkname bufFill C.buf_fill
+func bufFill(p *byte, n int32, seed int32)
+
+var sink int32
+
 `
 
 const cPrelude = `#include <stdint.h>
@@ -514,6 +663,40 @@ static uint64_t mix(uint64_t h, uint64_t v) {
 }
 static uint32_t f32bits(float f) { uint32_t u; memcpy(&u, &f, 4); return u; }
 static uint64_t f64bits(double f) { uint64_t u; memcpy(&u, &f, 8); return u; }
+
+// leaves non-zero bytes below the caller's frame, as any earlier deep call would
+int scribble(int seed) {
+	volatile char buf[8192];
+	int i, s = 0;
+	for (i = 0; i < (int)sizeof(buf); i++) buf[i] = (char)('A' + (seed + i) % 26);
+	for (i = 0; i < (int)sizeof(buf); i += 997) s += buf[i];
+	return s;
+}
+uint64_t cs_hash(uint64_t h, const char *s) {
+	size_t n = strlen(s);
+	h = mix(h, n);
+	for (size_t i = 0; i < n; i++) h = mix(h, (uint8_t)s[i]);
+	return h;
+}
+static char keepbuf[512];
+const char *cs_keep(const char *s) {
+	strncpy(keepbuf, s, sizeof(keepbuf) - 1);
+	keepbuf[sizeof(keepbuf) - 1] = 0;
+	return keepbuf;
+}
+uint64_t cs_argv(char **v) {
+	uint64_t h = 14695981039346656037ull;
+	for (; *v; v++) h = cs_hash(h, *v);
+	return h;
+}
+uint64_t buf_hash(const uint8_t *p, int n) {
+	uint64_t h = 14695981039346656037ull;
+	for (int i = 0; i < n; i++) h = mix(h, p[i]);
+	return h;
+}
+void buf_fill(uint8_t *p, int n, int seed) {
+	for (int i = 0; i < n; i++) p[i] = (uint8_t)(seed * 7 + i * 13);
+}
 
 `
 
@@ -531,7 +714,11 @@ func TestC09Programs(t *testing.T) {
 		var infos []unitInfo
 		var mainBody strings.Builder
 		for u := 0; u < nunits; u++ {
-			infos = append(infos, g.unit(u))
+			if rapid.IntRange(0, 5).Draw(t, "stringsUnit") == 0 {
+				infos = append(infos, g.stringUnit(u))
+			} else {
+				infos = append(infos, g.unit(u))
+			}
 			fmt.Fprintf(&mainBody, "\tU%d()\n", u)
 		}
 		g.gosrc.WriteString("func main() {\n" + mainBody.String() + "}\n")
@@ -550,7 +737,13 @@ func TestC09Programs(t *testing.T) {
 		for u, in := range infos {
 			nt := in.StructSz > 16 || in.Exhausted || in.SseRegs > 0 || strings.Contains(in.Desc, "function-literal callback true")
 			cls := []string{"units"}
-			if in.StructSz > 16 {
+			if in.Strings {
+				nt = true
+				cls = append(cls, "strings_and_buffers")
+				if in.EmptyStr {
+					cls = append(cls, "empty_string_to_c")
+				}
+			} else if in.StructSz > 16 {
 				cls = append(cls, "struct_memory_class")
 			} else if in.StructSz > 8 {
 				cls = append(cls, "struct_two_eightbytes")
@@ -591,7 +784,12 @@ func TestC09Programs(t *testing.T) {
 						seen[what] = v
 					}
 				}
-				for _, what := range []string{"args", "ret", "cb_seen", "cb_ret"} {
+				var whats []string
+				for w := range in.Expect {
+					whats = append(whats, w)
+				}
+				sort.Strings(whats)
+				for _, what := range whats {
 					if got, ok := seen[what]; !ok || got != in.Expect[what] {
 						key := "C09:" + what
 						if in.Exhausted {
